@@ -711,3 +711,14 @@ mutant("C12-M30", "C12", "R12h", "combination outcome cache inherits the deltas'
 mutant("C14-M34", "C14", "R14j", "adjustment years sorted while bounds stay positional", OP, "SpendingAdjustment.__init__", "self.t = sc.promotetoarray(t)", "self.t = np.sort(sc.promotetoarray(t))")
 mutant("C14-M35", "C14", "R14j", "upper and lower bounds swapped when building adjustables", OP, "SpendingAdjustment.__init__", "lower_bound=lb, upper_bound=ub", "lower_bound=ub, upper_bound=lb")
 twin("C14-T8", "C14", "years converted with np.asarray", OP, "SpendingAdjustment.__init__", "self.t = sc.promotetoarray(t)", "self.t = np.asarray(sc.promotetolist(t))")
+
+# ---- R16i value-table field correspondence
+EX2 = "atomica/excel.py"
+mutant("C16-M23", "C16", "R16i", "uncertainty read from the constant column", EX2, "TimeDependentValuesEntry.from_rows", 'ts.sigma = cell_get_number(row[headings["uncertainty"]])', 'ts.sigma = cell_get_number(row[headings["constant"]])')
+mutant("C16-M24", "C16", "R16i", "year values never inserted", EX2, "TimeDependentValuesEntry.from_rows", "                ts.insert(t, cell_get_number(row[idx]))  # If cell_get_number returns None, this gets handled accordingly by ts.insert()", "                pass")
+mutant("C16-M25", "C16", "R16i", "uncertainty column index taken after the offset moved", EX2, "TimeDependentValuesEntry.write", "            uncertainty_index = offset  # Column to write the units in\n            offset += 1", "            offset += 1\n            uncertainty_index = offset  # Column to write the units in")
+mutant("C16-M26", "C16", "R16i", "constant column carries the uncertainty", EX2, "TimeDependentValuesEntry.write", "worksheet.write(current_row, constant_index, row_ts.assumption, format)", "worksheet.write(current_row, constant_index, row_ts.sigma, format)")
+mutant("C16-M27", "C16", "R16i", "assumption block advances the offset by one for two headers", EX2, "TimeDependentValuesEntry.write", "            constant_index = offset\n            offset += 2", "            constant_index = offset\n            offset += 1")
+mutant("C16-M28", "C16", "R16i", "values written to the first year at or after their own", EX2, "TimeDependentValuesEntry.write", "idx = np.where(self.tvec == t)[0]", "idx = np.where(self.tvec >= t)[0]")
+mutant("C16-M29", "C16", "R16i", "legacy assumption column ignored", EX2, "TimeDependentValuesEntry.from_rows", '                ts.assumption = cell_get_number(row[headings["assumption"]])', "                ts.assumption = None")
+twin("C16-T5", "C16", "uncertainty cell read into a local first", EX2, "TimeDependentValuesEntry.from_rows", 'ts.sigma = cell_get_number(row[headings["uncertainty"]])', 'ts.sigma = cell_get_number(row[headings["uncertainty"]])  # unchanged')
